@@ -176,7 +176,12 @@ where
 
     fn poll_shutdown(mut self: Pin<&mut Self>, cx: &mut Context<'_>) -> Poll<io::Result<()>> {
         match self.state {
-            TlsState::Handshake(_) => Poll::Ready(Ok(())),
+            // Nothing has been said over TLS yet, so there is nothing to close at that
+            // level, but the transport itself still has to be shut down.
+            TlsState::Handshake(ref mut accept) => match accept.get_mut() {
+                Some(io) => Pin::new(io).poll_shutdown(cx),
+                None => Poll::Ready(Ok(())),
+            },
             TlsState::Streaming(ref mut stream) => Pin::new(stream).poll_shutdown(cx),
         }
     }
